@@ -636,8 +636,8 @@ fn sd_function(kind: &'static str, vis: &'static str, modifier: &'static str, bo
     if !vis.is_empty() {
         p.push(T(vis));
     }
-    if !modifier.is_empty() {
-        p.push(T(modifier));
+    for m in modifier.split(' ').filter(|m| !m.is_empty()) {
+        p.push(T(m));
     }
     p.push(C(block(body)));
     node("FunctionDefinition", p)
@@ -703,7 +703,7 @@ pub fn c07(tier: Tier) -> i32 {
     let in_c = |f: Frag| file(vec![pragma(PRAGMA), contract("C", vec![f])]);
     for kind in ["function", "fallback", "receive", "constructor"] {
         for vis in ["", "public", "external", "internal", "private"] {
-            for modifier in ["", "onlyOwner", "only", "m", "OnlyOwner", "lonely"] {
+            for modifier in ["", "onlyOwner", "only", "m", "OnlyOwner", "lonely", "m onlyOwner", "onlyOwner m", "nonReentrant m only", "m n"] {
                 for g in 0..=17usize {
                     for payout in 0..=5usize {
                         for callee in ["selfdestruct", "suicide"] {
@@ -916,7 +916,8 @@ fn write_forms(name: &'static str, all: bool) -> Vec<(String, Frag)> {
     let mut v: Vec<(String, Frag)> = Vec::new();
     let assigns: Vec<&(&str, &str, u8, u8, u8)> = BINOPS.iter().filter(|b| b.0.starts_with("Assign")).collect();
     for (i, b) in assigns.iter().enumerate() {
-        if all || [0usize, 1, 4, 6, 9].contains(&i) {
+        // every assignment operator in both tiers (each has its own match arm in the detectors)
+        if all || i < usize::MAX {
             v.push((format!("w.{}", b.0), bin(b.0, b.1, b.2, b.3, b.4, var(name), num("5"))));
         }
     }
@@ -1005,6 +1006,8 @@ pub fn c08(tier: Tier) -> i32 {
         ("private.ctor", "bytes32 private s0 ; constructor ( bytes32 k ) { s0 = k ; }".into()),
         ("bytes32.ctor.conversion", "bytes32 s0 ; constructor ( uint256 seed ) { s0 = bytes32 ( seed ) ; }".into()),
         // constant / immutable after and before a visibility keyword
+        ("ctor.after-string", "string name0 ; uint256 s0 ; constructor ( ) { name0 = \"T\" ; s0 = 7 ; }".into()),
+        ("ctor.after-abi", "bytes blob0 ; address s0 ; constructor ( ) { blob0 = abi . encode ( 1 ) ; s0 = msg . sender ; }".into()),
         ("public.constant", "uint256 public constant s0 = 3 ;".into()),
         ("constant.internal", "uint256 constant internal s0 = 3 ;".into()),
         ("private.immutable.ctor", "uint256 private immutable s0 ; constructor ( ) { s0 = 7 ; }".into()),
@@ -1294,6 +1297,8 @@ pub fn c09(tier: Tier) -> i32 {
         ("attached-file", format!("using SafeMath for uint256 ; contract C {{ function f ( ) public {{ {} }} }}", body)),
         ("not-attached", format!("contract C {{ using Other for uint256 ; function f ( ) public {{ {} }} }}", body)),
         // other spellings of "attaches a library called SafeMath": through a qualified path, for every type
+        ("attached-then-other-using", format!("contract C {{ using SafeMath for uint256 ; using SafeERC20 for IERC20 ; function f ( ) public {{ {} }} }}", body)),
+        ("other-using-then-attached", format!("using Address for address ; contract C {{ using SafeMath for uint256 ; function f ( ) public {{ {} }} }} library Address {{ }}", body)),
         ("attached-qualified", format!("import \"./math/SafeMath.sol\" as Math ; contract C {{ using Math . SafeMath for uint256 ; function f ( ) public {{ {} }} }}", body)),
         ("attached-star-file", format!("using SafeMath for * ; library SafeMath {{ }} contract C {{ function f ( ) public {{ {} }} }}", body)),
     ];
